@@ -185,6 +185,12 @@ def gen_fault(ch):
 def shard(ctx, shard_no, nshards, n):
     def body(inp):
         sub_file(inp)
+        if any(k != 'id' for m in inp['models'] for k, _v in m[1]):
+            # afterwards: the same properties under their ids only (no title / description); nothing of the earlier parse may stick
+            models = [('prop', tuple((k, v) for k, v in m[1] if k == 'id'), m[2], m[3]) for m in inp['models']]
+            parts = [mast.render(m) for m in models]
+            sub_file({'parts': parts, 'models': models, 'file': '\n'.join(parts)})
+            ctx.count('relative-files')
         k = len(inp['parts'])
         annotated = any(m[1] for m in inp['models'])
         ctx.case(inp['file'], k >= 2 and annotated, f'file:{min(k, 4)}{"+" if k > 4 else ""}:{"annotated" if annotated else "plain"}', sample=inp['file'][:400])
